@@ -3149,7 +3149,11 @@ def mttv_left(W_in: np.ndarray, U1: np.ndarray) -> np.ndarray:
     """
     r = U1.shape[1]
     W_in = np.reshape(W_in, (U1.shape[0], -1, r), order="F")
-    W_out = np.zeros_like(W_in, shape=(W_in.shape[1], r))
+    # (in the type of the products: integer partial results times a float factor
+    # matrix are floats)
+    W_out = np.zeros_like(
+        W_in, shape=(W_in.shape[1], r), dtype=np.result_type(W_in, U1)
+    )
     # TODO this can be replaced with tensordot and slice,
     #  even better if we can skip slice
     #  W_out = np.dot(W_in.transpose(), U1)[range(r), :, range(r)].transpose()
@@ -3179,7 +3183,7 @@ def mttv_mid(W_in: np.ndarray, U_mid: Sequence[np.ndarray]) -> np.ndarray:
     K = ttb.khatrirao(*U_mid, reverse=True)
     r = K.shape[1]
     W_in = np.reshape(W_in, (-1, K.shape[0], r), order="F")
-    V = np.zeros_like(W_in, shape=(W_in.shape[0], r))
+    V = np.zeros_like(W_in, shape=(W_in.shape[0], r), dtype=np.result_type(W_in, K))
     for j in range(r):
         V[:, j] = W_in[:, :, j].dot(K[:, j])
     return V
